@@ -29,7 +29,8 @@ EXTENDS Naturals, Sequences, FiniteSets, TLC
 CONSTANTS Procs,       \* process ids
           MaxVer, MaxNow,   \* model bounds
           Magic,       \* codegen.MAGIC_NUMBER of this generator
-          UseWriter    \* a user module_writer is configured
+          UseWriter,   \* a user module_writer is configured
+          Failures     \* writing calls may fail with OSError (off in the largest instances to keep them tractable)
 NoMod == [st |-> "absent", from |-> 0, magic |-> 0, mt |-> 0]
 NoTmp == [st |-> "none", from |-> 0, bytes |-> 0]
 \* locals of a running construction
@@ -140,7 +141,7 @@ Crash(p)   == /\ pc[p] # "idle" /\ pc' = [pc EXCEPT ![p] = "idle"] /\ loc' = [lo
 (* ---- a writing call FAILS (OSError): the process lives on, the error propagates out of the constructor.  Nothing is
    cleaned up by the code; inside Write half of the bytes may have reached the temp file *)
 FailLabels == {"Mkstemp", "Write", "Close", "Move"}
-Fail(p)    == /\ pc[p] \in FailLabels
+Fail(p)    == /\ Failures /\ pc[p] \in FailLabels
               /\ pc' = [pc EXCEPT ![p] = "Failed"] /\ loc' = loc
               /\ \/ tmp' = tmp /\ last' = [ev |-> "fail", at |-> pc[p], p |-> p, mid |-> FALSE]
                  \/ pc[p] = "Write" /\ tmp' = [tmp EXCEPT ![p].bytes = 1] /\ last' = [ev |-> "fail", at |-> pc[p], p |-> p, mid |-> TRUE]
